@@ -44,7 +44,7 @@ def cases(tier, seed):
         k += 1
         schemes = b["schemes"] if tier == "thorough" else [b["schemes"][k % 3]]
         for sch in schemes:
-            out.append(dict(scheme=sch, release=rel, death=death, numrec=numrec, nsteps=n, period=P, pvars=bool((k // 2 + k // 7) % 2)))
+            out.append(dict(scheme=sch, release=rel, death=death, numrec=numrec, nsteps=n, period=P, pvars=bool((k // 2 + k // 7) % 2), packed=bool((k // 3) % 2)))
     return out
 
 
@@ -80,7 +80,7 @@ def setup(case, d):
     if case["release"] == "discrete":
         sched = [(0, 0, 2), (0, 1, 1), (3, 2, 1), (4, 3, 1), (7, 0, 1), (10, 1, 2)]
     else:
-        sched = [(0, 0, 1), (0, 2, 1), (6, 1, 1)]
+        sched = [(0, 0, 1), (0, 2, 1), (7, 1, 1)]  # the second file time is NOT on the 3-step tick grid
     for slot, pi, mult in sched:
         x, y, z = pos[pi]
         rows.append(dict(mult=mult, release_time=world.iso(S0 + slot * DT), X=x, Y=y, Z=z, tag=100 + 10 * slot + pi, weight=1.5 + slot + pi / 8))
@@ -105,7 +105,7 @@ def released_upto(case, step):
         return sum(m for slot, _, m in [(0, 0, 2), (0, 1, 1), (3, 2, 1), (4, 3, 1), (7, 0, 1), (10, 1, 2)] if slot <= step)
     total, t = 0, 0
     while t <= step:
-        total += 2 if t < 6 else 1  # file times 0 (two rows) and 6 (one row), ticks every 3 steps
+        total += 2 if t < 7 else 1  # file times 0 (two rows) and 7 (one row), ticks every 3 steps
         t += 3
     return total
 
@@ -116,6 +116,8 @@ def run_full(case, d):
                            tracker=dict(advection=case["scheme"]), state=state, ibm=ibm, particle_out=pout, extra_forcing=["temp"],
                            release_extra=rel_extra, filename="run.nc", reference=S0 - 86400)
     conf["output"]["instance_variables"]["tag"] = world.ovar("i4")
+    if case.get("packed"):  # a warm-started variable stored packed (integer + scale_factor/add_offset), exactly representable
+        conf["output"]["instance_variables"]["age"] = world.ovar("i4", scale_factor=0.5, add_offset=100.0)
     drive.run_model(conf, d)
     return conf
 
@@ -161,7 +163,8 @@ def run_case(case):
         try:
             run_restart(case, d, conf0, k, files)
         except drive.RunFailed as e:
-            bad("crash:restart", str(e), k)
+            empty = sum(rec["count"] for rec in full["records"][k * r : (k + 1) * r]) == 0
+            bad("crash:restart" + (":restart-file-without-particles" if empty else ""), str(e), k)
             continue
         # expected files of the restarted run: the remaining records (k+1)*r .. K-1, numbering continued
         rest = K - (k + 1) * r
@@ -213,6 +216,8 @@ def run_case(case):
                 fb = full["files"][k + 1 + j]
                 for v in ("weight", "release_time"):
                     a, b = np.asarray(fa["particle"][v], float), np.asarray(fb["particle"][v], float)
+                    if j == len(names) - 1 and len(a) > len(b) and rs["records"][-1]["time"] == float(S0 + n * DT):
+                        a = a[: len(b)]  # the warm run's extra record at `stop` finalises its last file later: more particles, same prefix
                     if len(a) != len(b) or not np.all((np.abs(a - b) <= 1e-9 * np.maximum(1, np.abs(b))) | (np.isnan(a) & np.isnan(b))):
                         bad(f"particle-variables:{v}" + absent, f"{name}: {v}={a.tolist()} expected {b.tolist()} (file {fb['name']} of the uninterrupted run)", k)
         if dead_before and released_after:
